@@ -28,7 +28,17 @@ d2cf3a6:C03
 0674d69:C03
 c9fab44:C03
 c9bf373:C19
+b7bf3cf:C12
+d1e470b:C02,C05
+60dafc3:C01,C02
+e962ecc:C01
+c20f61a:C01
+31f82a9:C01
+abf1ab3:C16
+93f0ead:C16
+eb6719b:C08
 "
+[ -n "$REVERT_ONLY" ] && PAIRS="$REVERT_ONLY"
 for pair in $PAIRS; do
   sha=${pair%%:*}; checks=${pair##*:}
   wt=/tmp/vpd-rv-$sha
